@@ -51,6 +51,22 @@ def npReduce (fname : String) (f : List α → α) (d : Data κ α) (ax : Axis) 
   | .none => .ok (.inr (f d.values.data))
   | .name s =>
     if s ∉ d.dims then .error .value
+    else if d.dims.length = 1 then .ok (.inr (f d.values.data))   -- NumPy returns a scalar, passed through
+    else (reduceDim f d s).map (fun r => .inl (r.addHist ("numpy." ++ fname) ["axis"]))
+  | .pos i =>
+    let n : Int := d.dims.length
+    if i ≥ n ∨ i < -n then .error .index
+    else if d.dims.length = 1 then .ok (.inr (f d.values.data))
+    else
+      let k := (if i < 0 then i + n else i).toNat
+      (reduceDim f d (d.dims.getD k "")).map (fun r => .inl (r.addHist ("numpy." ++ fname) ["axis"]))
+
+def npReduceOld (fname : String) (f : List α → α) (d : Data κ α) (ax : Axis) :
+    Except Err (Data κ α ⊕ α) :=
+  match ax with
+  | .none => .ok (.inr (f d.values.data))
+  | .name s =>
+    if s ∉ d.dims then .error .value
     else (reduceDim f d s).map (fun r => .inl (r.addHist ("numpy." ++ fname) ["axis"]))
   | .pos i =>
     let n : Int := d.dims.length
